@@ -331,11 +331,9 @@ void _mzd_ple_a10(mzd_t *A, mzp_t const *P, rci_t const start_row, rci_t const s
 
   for (int i = 1; i < k; ++i) {
     word const tmp = mzd_read_bits(A, start_row + i, start_col, pivots[i]);
-    word *target = mzd_row(A, start_row + i);
     for (int j = 0; j < i; ++j) {
       if ((tmp & m4ri_one << pivots[j])) {
-        word const *source = mzd_row(A, start_row + j);
-        for (wi_t w = addblock; w < A->width; ++w) { target[w] ^= source[w]; }
+        mzd_combine_even_in_place(A, start_row + i, addblock, A, start_row + j, addblock);
       }
     }
   }
